@@ -239,7 +239,18 @@ class C11Spec(Spec):
         # moves one socket capacity per 10 ms round): behind a 300-byte socket a 64 KiB entry blocks the heartbeats for
         # seconds, the follower campaigns and nothing ever completes - bandwidth is a premise here, not the subject
         biggest = max([sz for _, sz in plan] + [0]) + 1000
-        cfg['cap'] = max(cfg['cap'], min(1 << 20, biggest // 10))
+        cfg['cap'] = max(cfg['cap'], min(1 << 20, min(biggest, B + 1000) // 10))
+        if idx >= len(grid) and rng.random() < 0.12:
+            # slow link, big argument: the entry travels in chunks of 1 KiB behind a 300-byte socket for longer than
+            # connectionTimeout as a whole, while every single chunk crosses well within an election time-out
+            B = 1024
+            conf['appendEntriesBatchSizeBytes'] = B
+            conf['connectionTimeout'] = 3.5
+            plan = [('bytes', 100), ('zbytes' if rng.random() < 0.3 else 'bytes', rng.choice([60, 100, 140]) * B), ('bytes', 7)]
+            cfg['cap'] = 300
+            cfg['case'] = dict(kind='slow', B=B)
+            s['c11_rounds'] = 4000
+            s['dlv_sizes'] = [0]
         cfg['plan'] = plan
         s['dlv_sizes'] = rng.choice([[0], [0, 0, 0, 64, 1000], [0, 0, 1, 7, 300]])
         s['steps'] = 1 << 30
